@@ -206,6 +206,52 @@ theorem c10_load_save_big_size_witness :
     load 0 (save 0 ['p'] [] [⟨0x1000, 0xa0000000, 'T', ['h','u','g','e']⟩]) = [] := by
   decide
 
+/-! ## which symbol file belongs to a module (load_module_symbol, --with-syms) -/
+
+/-- The primary file `<basename>.sym` is never used for a module whose build-id conflicts
+    with the one in the file's header — with or without a separate symbol directory
+    (SYMTAB_FL_SYMS_DIR waives the path-name comparison only). -/
+theorem c10_symfile_primary_buildid (d : SymDir) (withSyms : Bool) (mname mbid text : List Char)
+    (hsel : selectSymName d withSyms mname mbid = basename mname ++ ".sym".toList)
+    (hfile : d.get (basename mname ++ ".sym".toList) = some text)
+    (hcnt : (checkSymbolFile text).count > 0)
+    (hb : (checkSymbolFile text).bid ≠ []) (hm : mbid ≠ [])
+    (hne : newSymName (basename mname ++ ".sym".toList) mname mbid ≠ basename mname ++ ".sym".toList) :
+    (checkSymbolFile text).bid = mbid := by
+  unfold selectSymName at hsel
+  simp only [hfile] at hsel
+  split at hsel
+  · exact absurd hsel hne
+  · rename_i hcond
+    apply Classical.byContradiction
+    intro hdiff
+    exact hcond ⟨hcnt, Or.inr ⟨hb, hm, hdiff⟩⟩
+
+/-- … and when the build-ids conflict the alternative name `<basename>-<id4>.sym` is
+    taken, again independent of `--with-syms`. -/
+theorem c10_symfile_conflict_uses_alt (d : SymDir) (withSyms : Bool) (mname mbid text : List Char)
+    (hfile : d.get (basename mname ++ ".sym".toList) = some text)
+    (hcnt : (checkSymbolFile text).count > 0)
+    (hb : (checkSymbolFile text).bid ≠ []) (hm : mbid ≠ [])
+    (hdiff : (checkSymbolFile text).bid ≠ mbid) :
+    selectSymName d withSyms mname mbid = newSymName (basename mname ++ ".sym".toList) mname mbid := by
+  unfold selectSymName
+  simp only [hfile]
+  rw [if_pos ⟨hcnt, Or.inr ⟨hb, hm, hdiff⟩⟩]
+
+/-- two libraries `red/libp.so` and `blue/libp.so` with different build-ids, saved by record -/
+def twoLibsDir : SymDir :=
+  saveInto (saveInto [] "/r/libp.so".toList "aaaa11".toList [⟨0x100, 0x10, 'T', "red".toList⟩])
+    "/b/libp.so".toList "bbbb22".toList [⟨0x100, 0x20, 'T', "blue".toList⟩]
+
+/-- Non-vacuity / end-to-end instance: each of the two same-named libraries gets its own
+    table back, with and without `--with-syms`. -/
+theorem c10_symfile_two_libs_witness :
+    ∀ ws : Bool,
+      moduleTable twoLibsDir ws "/r/libp.so".toList "aaaa11".toList = [⟨0x100, 0x10, 'T', "red".toList⟩] ∧
+      moduleTable twoLibsDir ws "/b/libp.so".toList "bbbb22".toList = [⟨0x100, 0x20, 'T', "blue".toList⟩] := by
+  decide
+
 /-! ## session in force at a timestamp -/
 
 /-- References added in time order: the session used for time `t` is the one of the
